@@ -85,14 +85,17 @@ def groups(tier, seed):
                 for s in range(ns):
                     gs.append({"name": "q-n%d-%s%s-%s%d" % (n, spec, basis, part, s), "fam": "quartic", "n": n,
                                "spec": spec, "basis": basis, "part": part, "shard": s, "nshards": ns})
-    for s in range(2):
-        gs.append({"name": "rosenbrock-%d" % s, "fam": "rosenbrock", "n": 2, "part": "B", "shard": s, "nshards": 2})
+    nros = 4 if tier == "quick" else 16
+    for s in range(nros):      # Rosenbrock costs ~0.7 s per run (many SPG iterations): quick uses k_A on the reduced box set
+        gs.append({"name": "rosenbrock-%d" % s, "fam": "rosenbrock", "n": 2, "part": "B", "shard": s, "nshards": nros})
     gs.append({"name": "cos1d", "fam": "cos1d", "n": 1, "part": "B", "shard": 0, "nshards": 1})
     # log barrier that is NaN outside (-1,1)^2 inside a LARGER box: trial points can have NaN objective / gradient / optimality
     # (added after a seeded change that treated a NaN optimality as converged went undetected)
-    gs.append({"name": "barrier", "fam": "barrier", "n": 2, "part": "B", "shard": 0, "nshards": 1})
+    for s in range(2):
+        gs.append({"name": "barrier-%d" % s, "fam": "barrier", "n": 2, "part": "B", "shard": s, "nshards": 2})
     # naive softplus: value inf and gradient NaN (inf/inf) at far trial points
-    gs.append({"name": "softplus", "fam": "softplus", "n": 2, "part": "B", "shard": 0, "nshards": 1})
+    for s in range(2):
+        gs.append({"name": "softplus-%d" % s, "fam": "softplus", "n": 2, "part": "B", "shard": s, "nshards": 2})
     for k in range(12):
         gs.append({"name": "projections-%02d" % k, "fam": "proj", "n": 0, "shard": k, "nshards": 12})
     return gs
@@ -215,6 +218,8 @@ def run_group(g, tier, seed, rec):
     kA, kB = _ks(tier)
     if n == 3:
         kB = 2
+    if fam == "rosenbrock" and tier == "quick":
+        kB = kA
     axes = _axes()
     configs = list(deviations(axes, kA if part == "A" else kB))
 
